@@ -371,3 +371,100 @@ Print Assumptions C06_unsupported_only_raw.
 Print Assumptions C06_deterministic.
 Print Assumptions C06_F64_division_monotone.
 Print Assumptions C06_F64_sorted_unit.
+
+(* ---- translator tie of the trainer's orchestration (harness/translate_trainer_run.py, gen/TrainerRun_gen.v):
+   the whole of run_trainer, print_statistics, PCFGPasswordParser.__init__ and trainer.py's
+   parse_command_line, translated on every run.  "Files are written from the counters as parsed":
+   for EVERY instantiation of the collaborators ---- *)
+From Pcfg Require Import ProbAlg Pipeline TrainerRunRt TrainerRunModel TrainerRunProofs TrainerRunGenProofs TrainerRunGenFacts TrainerRunInst.
+From PcfgGen Require Import TrainerRun_gen.
+
+(* print_statistics (called between pass 3 and the writers) leaves the parser object exactly as it got it *)
+Theorem C06_source_print_statistics_reads_only : forall (O : numops) (p : parser_obj O), py_print_statistics p = Ok p.
+Proof. exact py_print_statistics_reads_only. Qed.
+
+(* PCFGPasswordParser.__init__: the fifteen counters the writers read exist and start empty *)
+Theorem C06_source_parser_starts_empty : forall O : numops, @py_PCFGPasswordParser_init O = empty_parser.
+Proof. exact py_parser_init_is_empty. Qed.
+
+(* a run that returns True: three completed passes over one sequence (passes_ok: ONE new parser, fed the sequence
+   in pass 2, then print_statistics, nothing else); the parser the writers get is that parser with
+   count_base_structures replaced by Counters.with_markov of it for the coverage of the run and N of pass 1
+   (coverage 1, or OMEN n-grams exist); config.ini, the OMEN files and the PCFG files are written in this order,
+   save_pcfg_data with the encoding and the save_sensitive option of the run *)
+Theorem C06_source_writers_get_the_parsed_counters :
+  forall (O : numops) (C : collab O) (pi : pinfo O) (base : path) (w w' : c_W C),
+  py_run_trainer C pi base w = (Ok (Some true), w') ->
+  exists (t : trained_objs C) (w1 w2 : c_W C),
+    passes C pi w = Ok (inr t) /\ passes_ok C pi w t /\
+    let view := c_pp_view C (to_parser t) in
+    let pp := c_pp_update C (to_parser t)
+                (set_po_count_base_structures view
+                   (with_markov (pi_coverage pi) (to_n t) (po_count_base_structures view))) in
+    (neqb O (pi_coverage pi) (none O) = true \/ c_ks_counter C (to_keyspace t) <> []) /\
+    c_save_config_file C base (to_pinfo t) (to_reader t) pp w = (Ok true, w1) /\
+    c_save_omen_rules_to_disk C (to_omen t) (to_keyspace t) (to_levels t) (to_n t) base (to_pinfo t) w1 = (Ok true, w2) /\
+    c_save_pcfg_data C base pp (pi_encoding pi) (pi_save_sensitive pi) w2 = (Ok true, w').
+Proof. exact (@source_run_true). Qed.
+
+(* the collaborators instantiated with the component models (Reader.read_text over the file system of WriterRt.v,
+   Segment.train / Segment.parse, the translated print_statistics, Markov block and save_pcfg_data; the OMEN side
+   and the two other writers any functions that do not raise): when the translated run_trainer returns True, the
+   trainer of the pipeline model succeeded on the sequence the reader yields, with N its length and the coverage /
+   save_sensitive options of the run, and the disk is Counters.save_pcfg_data of ITS counters (Pipeline.save),
+   installed folder by folder over the disk the other two writers left *)
+Theorem C06_source_run_trainer_writes_the_model_ruleset :
+  forall (A : palg) (R : parith A) (E : env) (path_of : str -> path) (rc : option str -> bool -> Reader.rcfg)
+         (AGt OTt KSt : Type) ag_new ag_step ag_alpha ot_new ot_step ot_smooth ks_of level_of ks_counter
+         (repr : num (ops_of R) -> str) (encb : str -> N -> bool) (calc : counter (ops_of R) -> counter (ops_of R))
+         save_config save_omen (pi : pinfo (ops_of R)) (fs : fsys) (nm text : str),
+  let PC := @pipe_collab A R E path_of rc AGt OTt KSt ag_new ag_step ag_alpha ot_new ot_step ot_smooth ks_of level_of
+                         ks_counter repr encb calc save_config save_omen in
+  pi_training_file pi = Some nm -> fs_get (path_of nm) fs = Some text ->
+  (ostr_truthy (pi_multiword pi) = true -> exists mnm mtext, pi_multiword pi = Some mnm /\ fs_get (path_of mnm) fs = Some mtext) ->
+  (e_mw_threshold E = 5%Z /\ e_mw_min_len E = 4%Z /\ e_mw_max_len E = 21%Z) ->
+  reader_agrees E rc ->
+  let rd := Reader.read_text (rc (pi_encoding pi) (pi_prefixcount pi)) text in
+  Reader.npw rd = Z.of_nat (length (Reader.out rd)) ->
+  (forall c, calc c = calc_probs c) -> fs_wf fs ->
+  (forall b p f po w, fs_wf w -> fs_wf (snd (save_config b p f po w))) ->
+  (forall ot ks lc n b p w, fs_wf w -> fs_wf (snd (save_omen ot ks lc n b p w))) ->
+  forall (base : path) (fs' : fsys),
+  py_run_trainer PC pi base fs = (Ok (Some true), fs') ->
+  exists (t : trained A) (fs2 : fsys) (enc : str),
+    Pipeline.train E (pipe_options R path_of rc pi fs) (Reader.out rd) = Some t /\
+    t_n t = N.of_nat (length (Reader.out rd)) /\ t_cov t = pi_coverage pi /\ t_sens t = pi_save_sensitive pi /\
+    pi_encoding pi = Some enc /\
+    ruleset_encodable repr encb enc (s_files (Pipeline.save R t)) = true /\
+    fs_wf fs2 /\
+    fs' = install_all repr base (s_files (Pipeline.save R t)) fs2.
+Proof.
+  intros A R E path_of rc AGt OTt KSt ag_new ag_step ag_alpha ot_new ot_step ot_smooth ks_of level_of ks_counter repr encb calc
+         save_config save_omen pi fs nm text PC H1 H2 H3 H4 H5 rd H6 H7 H8 H9 H10 base fs'.
+  exact (run_trainer_writes_pipeline_ruleset R E path_of rc AGt OTt KSt ag_new ag_step ag_alpha ot_new ot_step ot_smooth ks_of level_of
+           ks_counter repr encb calc save_config save_omen pi fs nm text H1 H2 H3 H4 H5 H6 H7 H8 H9 H10 base fs').
+Qed.
+
+(* trainer.py: every option of the command line lands in its key of program_info, and the run is refused exactly
+   when the coverage is below 0 or above 1 - "every coverage in [0,1]" is accepted, 0 and 1 included *)
+Theorem C06_source_parse_command_line : forall (O : numops) (a : cli_args O) (pi : pinfo O),
+  py_parse_command_line a pi = Ok (coverage_ok (a_coverage a), cli_pinfo a pi).
+Proof. exact source_parse_command_line. Qed.
+Theorem C06_source_coverage_range : forall (a : cli_args QNum) (pi : pinfo QNum),
+  (exists pi', py_parse_command_line a pi = Ok (true, pi')) <-> (0 <= a_coverage a /\ a_coverage a <= 1)%Q.
+Proof. exact source_coverage_range_Q. Qed.
+Theorem C06_source_cli_options : py_cli_options = expected_cli_options.
+Proof. exact py_cli_options_are_expected. Qed.
+(* main: the defaults, parse_command_line, the encoding given or detected, Rules/<rule name> below the script,
+   create_rule_folders, then run_trainer with exactly that program_info *)
+Theorem C06_source_main_is_model : forall (O : numops) (C : main_collab O) (script_dir : path) (w : mc_W C),
+  py_main C script_dir w = m_main C py_main_defaults script_dir w.
+Proof. exact py_main_is_model. Qed.
+
+Print Assumptions C06_source_print_statistics_reads_only.
+Print Assumptions C06_source_parser_starts_empty.
+Print Assumptions C06_source_writers_get_the_parsed_counters.
+Print Assumptions C06_source_run_trainer_writes_the_model_ruleset.
+Print Assumptions C06_source_parse_command_line.
+Print Assumptions C06_source_coverage_range.
+Print Assumptions C06_source_main_is_model.
